@@ -1,4 +1,469 @@
 package main
 
-func cmdCheck(args []string) int  { return 2 }
-func cmdReplay(args []string) int { return 2 }
+import (
+	"bufio"
+	"encoding/json"
+	"flag"
+	"fmt"
+	"os"
+	"os/exec"
+	"path/filepath"
+	"runtime"
+	"sort"
+	"strconv"
+	"strings"
+	"time"
+)
+
+// PropSpec describes how one property is decided.
+type PropSpec struct {
+	ID          string
+	Jobs        func(tier string, seed int64) []Job
+	Budget      map[string]time.Duration // per tier wall budget for exploration
+	Reach       []string                 // vacuity labels that must be reached on the unchanged tree
+	Bounds      map[string]interface{}
+	Assumptions []string
+	Outside     []string
+	TimeoutMs   map[string]int
+	// Hang: labels whose native replay is expected not to terminate (a timeout then counts as reproduced).
+	HangLabels []string
+}
+
+var props = map[string]*PropSpec{}
+
+func register(p *PropSpec) { props[p.ID] = p }
+
+type replayFile struct {
+	Property string       `json:"property"`
+	Pkg      string       `json:"pkg"`
+	Harness  string       `json:"harness"`
+	Args     []string     `json:"args"`
+	Nondet   []replayVal  `json:"nondet"`
+	Label    string       `json:"label"`
+	Panic    bool         `json:"panic"`
+	Notes    []string     `json:"notes,omitempty"`
+	Native   *nativeState `json:"native,omitempty"`
+}
+
+type replayVal struct {
+	Tag   string `json:"tag"`
+	Kind  string `json:"kind"`
+	Value uint64 `json:"value"`
+}
+
+type nativeState struct {
+	Result     string `json:"result"`
+	Reproduced bool   `json:"reproduced"`
+}
+
+type finding struct {
+	kind string // finding | fixed
+	prop string
+	key  string
+	text string
+}
+
+func loadFindings() []finding {
+	var out []finding
+	f, err := os.Open(filepath.Join(verifDir, "known_findings.txt"))
+	if err != nil {
+		return nil
+	}
+	defer f.Close()
+	sc := bufio.NewScanner(f)
+	sc.Buffer(make([]byte, 1<<20), 1<<20)
+	for sc.Scan() {
+		line := strings.TrimSpace(sc.Text())
+		if line == "" || strings.HasPrefix(line, "#") {
+			continue
+		}
+		var fd finding
+		switch {
+		case strings.HasPrefix(line, "finding:"):
+			fd.kind = "finding"
+			line = strings.TrimSpace(strings.TrimPrefix(line, "finding:"))
+		case strings.HasPrefix(line, "fixed:"):
+			fd.kind = "fixed"
+			line = strings.TrimSpace(strings.TrimPrefix(line, "fixed:"))
+		default:
+			continue
+		}
+		if strings.HasPrefix(line, "property=") {
+			sp := strings.IndexByte(line, ' ')
+			if sp < 0 {
+				continue
+			}
+			fd.prop = line[len("property="):sp]
+			line = strings.TrimSpace(line[sp:])
+		}
+		if strings.HasPrefix(line, "key=\"") {
+			rest := line[len("key=\""):]
+			end := strings.Index(rest, "\" ")
+			if end < 0 {
+				end = strings.LastIndex(rest, "\"")
+			}
+			if end >= 0 {
+				fd.key = rest[:end]
+				line = strings.TrimSpace(rest[end+1:])
+			}
+		}
+		fd.text = line
+		out = append(out, fd)
+	}
+	return out
+}
+
+type vioReport struct {
+	agg        *VioAgg
+	replayPath string
+	native     string
+	reproduced bool
+	known      *finding
+}
+
+func cmdCheck(args []string) int {
+	fs := flag.NewFlagSet("check", flag.ExitOnError)
+	tier := fs.String("tier", "", "quick|thorough")
+	workers := fs.Int("j", runtime.NumCPU(), "workers")
+	solver := fs.String("solver", "z3", "solver binary")
+	noReplay := fs.Bool("no-replay", false, "skip native replay (development)")
+	budgetOverride := fs.Duration("budget", 0, "override exploration budget")
+	var id string
+	if len(args) > 0 && !strings.HasPrefix(args[0], "-") {
+		id = args[0]
+		args = args[1:]
+	}
+	fs.Parse(args)
+	if id == "" && fs.NArg() > 0 {
+		id = fs.Arg(0)
+	}
+	if *tier == "" {
+		*tier = os.Getenv("VERIF_TIER")
+	}
+	if *tier != "thorough" {
+		*tier = "quick"
+	}
+	seed, _ := strconv.ParseInt(os.Getenv("VERIF_SEED"), 10, 64)
+	p, ok := props[id]
+	if !ok {
+		fmt.Fprintln(os.Stderr, "unknown property", id)
+		return 2
+	}
+	start := time.Now()
+	ev := newEvidence(id, *tier, seed)
+	l, err := loadProgram(nil)
+	if err != nil {
+		fmt.Printf("INCONCLUSIVE property=%s harness-does-not-build: %v\n", id, err)
+		for i, e := range l.errsOrNil() {
+			if i < 10 {
+				fmt.Println("  ", e)
+			}
+		}
+		ev.inconclusive("harness-does-not-build: " + err.Error())
+		ev.write(time.Since(start))
+		return 0
+	}
+	loadT := time.Since(start)
+	jobs := p.Jobs(*tier, seed)
+	tmo := 10000
+	if t, ok := p.TimeoutMs[*tier]; ok {
+		tmo = t
+	}
+	r := NewRunner(l, *workers, *solver, tmo)
+	budget := p.Budget[*tier]
+	if *budgetOverride > 0 {
+		budget = *budgetOverride
+	}
+	t1 := time.Now()
+	results := r.Run(jobs, budget)
+	exploreT := time.Since(t1)
+
+	// collect violations (one per label per property; keep the first job that showed it)
+	byLabel := map[string]*vioReport{}
+	var order []string
+	for _, jr := range results {
+		for _, k := range sortedKeys(jr.Vio) {
+			a := jr.Vio[k]
+			if rp, ok := byLabel[k]; ok {
+				rp.agg.Count += a.Count
+				continue
+			}
+			cp := *a
+			byLabel[k] = &vioReport{agg: &cp}
+			order = append(order, k)
+		}
+	}
+	sort.Strings(order)
+	os.MkdirAll(filepath.Join(verifDir, "replays"), 0o755)
+	old, _ := filepath.Glob(filepath.Join(verifDir, "replays", id+"-*.json"))
+	for _, f := range old {
+		os.Remove(f)
+	}
+	for i, k := range order {
+		rp := byLabel[k]
+		rp.replayPath = filepath.Join(verifDir, "replays", fmt.Sprintf("%s-%03d.json", id, i+1))
+		writeReplay(id, rp)
+	}
+	replayT := time.Duration(0)
+	if len(order) > 0 && !*noReplay {
+		t2 := time.Now()
+		nativeReplay(l, p, byLabel, order)
+		replayT = time.Since(t2)
+	}
+	findings := loadFindings()
+	exit := 0
+	nKnown, nNew, nMismatch := 0, 0, 0
+	for _, k := range order {
+		rp := byLabel[k]
+		if !*noReplay && !rp.reproduced {
+			nMismatch++
+			fmt.Printf("ENGINE-MISMATCH property=%s label=%q native=%q replay=%s (not reported as a violation)\n", id, k, rp.native, rp.replayPath)
+			continue
+		}
+		for i := range findings {
+			f := &findings[i]
+			if f.kind == "finding" && f.prop == id && f.key == k {
+				rp.known = f
+				break
+			}
+		}
+		if rp.known != nil {
+			nKnown++
+			fmt.Printf("KNOWN-FINDING: property=%s key=%q %s\n", id, k, rp.known.text)
+			continue
+		}
+		nNew++
+		exit = 1
+		fmt.Printf("VIOLATION property=%s replay=%s label=%q\n", id, rp.replayPath, k)
+	}
+	ev.fill(p, r, results, byLabel, order, loadT, exploreT, replayT, nKnown, nNew, nMismatch)
+	ev.write(time.Since(start))
+	summary(id, *tier, results, r, time.Since(start), nKnown, nNew, nMismatch)
+	return exit
+}
+
+func (l *Loaded) errsOrNil() []string {
+	if l == nil {
+		return nil
+	}
+	return l.errs
+}
+
+func summary(id, tier string, results []*JobResult, r *Runner, wall time.Duration, nKnown, nNew, nMismatch int) {
+	paths, completed, notExp, unknown := 0, 0, 0, 0
+	ends := map[string]int{}
+	for _, jr := range results {
+		paths += jr.Paths
+		completed += jr.Completed
+		notExp += jr.NotExplored
+		unknown += jr.UnknownQ
+		for k, v := range jr.Ends {
+			if k != "ok" {
+				ends[k] += v
+			}
+		}
+	}
+	fmt.Printf("SUMMARY property=%s tier=%s jobs=%d paths=%d completed=%d not_explored=%d queries=%d unknown_queries=%d solver_s=%.1f violations_new=%d known=%d engine_mismatch=%d wall_s=%.1f\n",
+		id, tier, len(results), paths, completed, notExp, r.Queries, r.SolverUnknown, r.SolverTime.Seconds(), nNew, nKnown, nMismatch, wall.Seconds())
+	keys := sortedKeys(ends)
+	sort.Slice(keys, func(i, j int) bool { return ends[keys[i]] > ends[keys[j]] })
+	for i, k := range keys {
+		if i >= 12 {
+			break
+		}
+		fmt.Printf("  end %-70s %d\n", k, ends[k])
+	}
+	for k, n := range r.EngineErrors {
+		fmt.Printf("  ENGINE-ERROR x%d: %s\n", n, k)
+	}
+}
+
+func writeReplay(id string, rp *vioReport) {
+	a := rp.agg
+	rf := replayFile{Property: id, Pkg: a.Job.Pkg, Harness: a.Job.Func, Args: a.Job.Args, Label: a.Label, Panic: a.First.Panic, Notes: a.Notes}
+	for i, n := range a.First.Nondet {
+		rf.Nondet = append(rf.Nondet, replayVal{Tag: n.Tag, Kind: n.Kind, Value: a.First.Values[i]})
+	}
+	if rp.native != "" {
+		rf.Native = &nativeState{Result: rp.native, Reproduced: rp.reproduced}
+	}
+	b, _ := json.MarshalIndent(rf, "", " ")
+	os.WriteFile(rp.replayPath, b, 0o644)
+}
+
+const replayTestSrc = `//go:build verif
+
+package PKG
+
+import "testing"
+
+func TestVerifReplay(t *testing.T) { VerifReplayAll() }
+`
+
+// buildReplayBinary compiles the package's test binary with the harness overlay; returns its path.
+func buildReplayBinary(l *Loaded, pkg string, tmp string) (string, error) {
+	dir := filepath.Join(repoDir, pkg)
+	goPkg := pkg
+	target := "./" + pkg + "/"
+	if pkg == "root" {
+		dir, goPkg, target = repoDir, "main", "."
+	}
+	rep := map[string]string{}
+	n := 0
+	for vpath, content := range l.overlay {
+		if filepath.Dir(vpath) != dir {
+			// harness files of other packages are needed too when this package imports them
+		}
+		n++
+		real := filepath.Join(tmp, fmt.Sprintf("ov%d_%s", n, filepath.Base(vpath)))
+		if err := os.WriteFile(real, content, 0o644); err != nil {
+			return "", err
+		}
+		rep[vpath] = real
+	}
+	testFile := filepath.Join(tmp, "replay_"+pkg+"_test.go")
+	os.WriteFile(testFile, []byte(strings.Replace(replayTestSrc, "package PKG", "package "+goPkg, 1)), 0o644)
+	rep[filepath.Join(dir, "zz_verif_replay_test.go")] = testFile
+	ovb, _ := json.Marshal(map[string]interface{}{"Replace": rep})
+	ovPath := filepath.Join(tmp, "overlay_"+pkg+".json")
+	os.WriteFile(ovPath, ovb, 0o644)
+	bin := filepath.Join(tmp, pkg+".test")
+	cmd := exec.Command("go", "test", "-c", "-o", bin, "-tags", "verif", "-vet=off", "-overlay", ovPath, target)
+	cmd.Dir = repoDir
+	cmd.Env = append(os.Environ(), "GOFLAGS=-mod=mod", "GOPROXY=off")
+	out, err := cmd.CombinedOutput()
+	if err != nil {
+		return "", fmt.Errorf("go test -c failed: %v\n%s", err, out)
+	}
+	return bin, nil
+}
+
+func nativeReplay(l *Loaded, p *PropSpec, byLabel map[string]*vioReport, order []string) {
+	tmp, err := os.MkdirTemp("", "gosym-replay-")
+	if err != nil {
+		return
+	}
+	defer os.RemoveAll(tmp)
+	bins := map[string]string{}
+	type res struct {
+		k   string
+		out string
+	}
+	ch := make(chan res, len(order))
+	sem := make(chan struct{}, 8)
+	pending := 0
+	for _, k := range order {
+		rp := byLabel[k]
+		pkg := rp.agg.Job.Pkg
+		bin, ok := bins[pkg]
+		if !ok {
+			b, err := buildReplayBinary(l, pkg, tmp)
+			if err != nil {
+				fmt.Println("REPLAY-BUILD-FAILED", err)
+				b = ""
+			}
+			bins[pkg] = b
+			bin = b
+		}
+		if bin == "" {
+			rp.native = "error:replay binary not built"
+			continue
+		}
+		pending++
+		go func(k string, rp *vioReport, bin string) {
+			sem <- struct{}{}
+			defer func() { <-sem }()
+			cwd, _ := os.MkdirTemp(tmp, "cwd")
+			cmd := exec.Command("timeout", "-s", "KILL", "20", bin, "-test.run", "^TestVerifReplay$", "-test.timeout", "60s")
+			cmd.Dir = cwd
+			cmd.Env = append(os.Environ(), "VERIF_REPLAYS="+rp.replayPath)
+			out, _ := cmd.CombinedOutput()
+			result := "timeout"
+			for _, line := range strings.Split(string(out), "\n") {
+				if strings.HasPrefix(line, "VERIF-RESULT ") {
+					parts := strings.SplitN(line, " ", 3)
+					if len(parts) == 3 {
+						result = parts[2]
+					}
+				}
+			}
+			if result == "timeout" && strings.Contains(string(out), "panic:") {
+				result = "crash:" + firstLine(string(out))
+			}
+			ch <- res{k, result}
+		}(k, rp, bin)
+	}
+	for i := 0; i < pending; i++ {
+		r := <-ch
+		rp := byLabel[r.k]
+		rp.native = r.out
+		switch {
+		case strings.HasPrefix(r.k, "go-panic:"):
+			cls := r.k
+			if at := strings.LastIndex(cls, "@"); at >= 0 {
+				cls = cls[:at]
+			}
+			rp.reproduced = r.out == cls || strings.HasPrefix(r.out, "crash:")
+		case r.out == "timeout":
+			for _, h := range p.HangLabels {
+				if h == r.k {
+					rp.reproduced = true
+				}
+			}
+		default:
+			rp.reproduced = r.out == "fail:"+r.k
+		}
+		writeReplay(p.ID, rp)
+	}
+}
+
+func firstLine(s string) string {
+	for _, l := range strings.Split(s, "\n") {
+		if strings.HasPrefix(l, "panic:") || strings.HasPrefix(l, "fatal error:") {
+			return l
+		}
+	}
+	return ""
+}
+
+// cmdReplay re-runs one replay file natively and prints the outcome.
+func cmdReplay(args []string) int {
+	if len(args) < 1 {
+		fmt.Fprintln(os.Stderr, "replay <file>")
+		return 2
+	}
+	b, err := os.ReadFile(args[0])
+	if err != nil {
+		fmt.Fprintln(os.Stderr, err)
+		return 2
+	}
+	var rf replayFile
+	if err := json.Unmarshal(b, &rf); err != nil {
+		fmt.Fprintln(os.Stderr, err)
+		return 2
+	}
+	l := &Loaded{}
+	l.overlay, err = harnessOverlay()
+	if err != nil {
+		fmt.Fprintln(os.Stderr, err)
+		return 2
+	}
+	abs, _ := filepath.Abs(args[0])
+	rp := &vioReport{agg: &VioAgg{Label: rf.Label, Job: Job{Pkg: rf.Pkg, Func: rf.Harness, Args: rf.Args}}, replayPath: abs}
+	p := props[rf.Property]
+	if p == nil {
+		p = &PropSpec{ID: rf.Property}
+	}
+	// do not rewrite the replay file's inputs: nativeReplay only adds the native outcome
+	for _, n := range rf.Nondet {
+		rp.agg.First.Nondet = append(rp.agg.First.Nondet, NondetVal{Tag: n.Tag, Kind: n.Kind})
+		rp.agg.First.Values = append(rp.agg.First.Values, n.Value)
+	}
+	rp.agg.First.Panic = rf.Panic
+	nativeReplay(l, p, map[string]*vioReport{rf.Label: rp}, []string{rf.Label})
+	fmt.Printf("replay %s: label=%q native=%q reproduced=%v\n", args[0], rf.Label, rp.native, rp.reproduced)
+	if rp.reproduced {
+		return 1
+	}
+	return 0
+}
